@@ -584,6 +584,10 @@ where
         self.metrics.record_execution_attempt();
 
         let tx_env = self.txs[txid].clone();
+        // Only an attempt that starts at the commit head reads nothing but committed state. An
+        // attempt that started speculatively may fail because of a stale read even if it happens to
+        // finish as the head, so its non-transaction error must never be reported as fatal.
+        let started_at_commit_head = self.scheduler_ctx.committed_idx() == txid;
         vobs!(INCARNATION_START, txid, incarnation, 0, 0);
         let IncarnationExecution { result, accesses } =
             executor.execute_incarnation(tx_version.clone(), tx_env);
@@ -699,9 +703,11 @@ where
                     if self.scheduler_ctx.committed_idx() == txid {
                         if invalid_transaction {
                             self.abort(AbortReason::FallbackSequential);
-                        } else {
+                        } else if started_at_commit_head {
                             self.abort(AbortReason::FatalEvmError(txid));
                         }
+                        // Otherwise `key_tx` below re-offers the transaction: the commit boundary
+                        // has already reached it, so the retry starts at the head and is decisive.
                     }
                     vpoint!(DEP_UPDATE);
                     self.tx_dependency.key_tx(txid, self.scheduler_ctx.commit_cursor());
